@@ -99,8 +99,8 @@ def record_logs(rec):
         try:
             build_logged(prog, log)
         except BaseException as e:
-            return {'build': list(log), 'iters': [], 'gets': [], 'exc': type(e).__name__}
-        out = {'build': list(log), 'iters': [], 'gets': [], 'exc': 'none'}
+            return {'build': list(log), 'iters': [], 'gets': [], 'getk': [], 'exc': type(e).__name__}
+        out = {'build': list(log), 'iters': [], 'gets': [], 'getk': [], 'exc': 'none'}
         for k in range(0, n + 2):
             log = []
             ds = build_logged(prog, log)
@@ -126,6 +126,22 @@ def record_logs(rec):
                 except BaseException:
                     ok = False
                 out['gets'].append({'i': i, 'ok': ok, 'calls': list(log)})
+            try:                       # ds[key] for every key keys() lists
+                keys = list(build_logged(prog, []).keys())
+            except BaseException:
+                keys = []
+            for i, key in enumerate(keys[:n]):
+                if not isinstance(key, str):
+                    continue
+                log = []
+                ds = build_logged(prog, log)
+                del log[:]
+                try:
+                    ds[key]
+                    ok = True
+                except BaseException:
+                    ok = False
+                out['getk'].append({'i': i, 'key': key, 'ok': ok, 'calls': list(log)})
     return out
 
 
